@@ -939,9 +939,26 @@ func (c *Ctx) uniqRules() {
 		}
 		info := c.info(fi)
 		defsParam := fi.Obj.Type().(*types.Signature).Params().At(0)
-		isMemberTest := func(e ast.Expr, name types.Object) bool {
+		var isMemberTest func(e ast.Expr, name types.Object) bool
+		isMemberTest = func(e ast.Expr, name types.Object) bool {
 			call, ok := core.Unparen(e).(*ast.CallExpr)
-			if !ok || len(call.Args) != 2 {
+			if !ok {
+				return false
+			}
+			// a local closure that wraps the test: taken := func(n string) bool { return member(defs, n) }
+			if len(call.Args) == 1 && core.ObjOf(info, call.Args[0]) == name {
+				if o := core.ObjOf(info, call.Fun); o != nil {
+					if defs := c.P.Locals(fi).Defs[o]; len(defs) == 1 && defs[0].Kind == core.DefAssign {
+						if fl, isLit := core.Unparen(defs[0].Expr).(*ast.FuncLit); isLit && len(fl.Body.List) == 1 && fl.Type.Params != nil && len(fl.Type.Params.List) == 1 && len(fl.Type.Params.List[0].Names) == 1 {
+							if ret, isRet := fl.Body.List[0].(*ast.ReturnStmt); isRet && len(ret.Results) == 1 {
+								return isMemberTest(ret.Results[0], info.Defs[fl.Type.Params.List[0].Names[0]])
+							}
+						}
+					}
+				}
+				return false
+			}
+			if len(call.Args) != 2 {
 				return false
 			}
 			g := c.P.StaticCallee(fi, call)
@@ -967,12 +984,44 @@ func (c *Ctx) uniqRules() {
 				}
 				k++
 				okRet := false
-				for _, cd := range c.conds(fi, ret) {
+				absent := func(cd core.Cond) bool {
 					if cd.Kind == core.CondBool && cd.Neg && isMemberTest(cd.Expr, name) {
-						okRet = true
+						return true
 					}
 					if x, empty, isE := core.EmptyTest(info, cd); isE && empty && core.ObjOf(info, x) == types.Object(defsParam) {
+						return true
+					}
+					return false
+				}
+				for _, cd := range c.conds(fi, ret) {
+					if absent(cd) {
 						okRet = true
+					}
+					// a disjunction each arm of which establishes absence: len(defs) < 1 || !member(defs, name)
+					if be, isBin := core.Unparen(cd.Expr).(*ast.BinaryExpr); isBin && be.Op == token.LOR && !cd.Neg && cd.Kind == core.CondBool {
+						all := true
+						var arms func(e ast.Expr)
+						arms = func(e ast.Expr) {
+							e = core.Unparen(e)
+							if b2, ok := e.(*ast.BinaryExpr); ok && b2.Op == token.LOR {
+								arms(b2.X)
+								arms(b2.Y)
+								return
+							}
+							armOK := false
+							for _, a := range core.SplitCond(e, false) {
+								if absent(a) {
+									armOK = true
+								}
+							}
+							if !armOK {
+								all = false
+							}
+						}
+						arms(be)
+						if all {
+							okRet = true
+						}
 					}
 				}
 				// the statement before the return: the search loop
